@@ -24,8 +24,8 @@ CLAIMED = {
          "value): +, -, unary -, six comparisons, * against an exact 128-bit oracle; / and % against the defining property of floor division "
          "(0 <= a - q*b < |b| with the divisor's sign) with error iff the exact result is outside [-2^63, 2^64-1].",
          "64x64 multipliers/dividers are made tractable by routing every product through one kernel that also asserts the (true) functional-"
-         "consistency lemma; unary minus is checked under its callers' contract (never a positive value carrying the signed flag); parse_int and "
-         "simple_arith_op are not covered yet.", '6/C08'),
+         "consistency lemma; unary minus is checked under its callers' contract (never a positive value carrying the signed flag); integer literals "
+         "are covered through parse_int on boundary literals (harness/c14.cc); simple_arith_op is not covered.", '6/C08'),
  'C09': ("constant::operator< and the derived ==, !=, <=, >=, > over all pairs and triples of constants (64-bit payload x signedness x 16 real domain "
          "objects incl. dec/hex/oct/bin/bool/line/column and the ELF STT/STB/STV domains of 5 machines, + no domain): trichotomy, symmetry, "
          "reflexivity, transitivity of < and ==, congruence, by-value comparison of arithmetic domains, unrelated named domains never equal. Address sets: "
@@ -45,6 +45,13 @@ CLAIMED = {
          "harness runs under the same memory checks.",
          "Programs that fail to compile (parser/lexer value stack) are outside; the construct-exactly-once shadow map of the state area was not "
          "built (double construction shows up only as a leak or a use-after-free); nsw/nuw overflow flags are not asserted (DESIGN 0.6).", '0.3'),
+ 'C14': ("Kernel only: parse_int (the integer-literal reader of parser.yy, through the bison output regenerated at check time) with the real "
+         "std::stoull header code over a C11 model of strtoull either yields the exact documented value in the domain of its radix or leaves a "
+         "std::exception-derived error -- for all boundary literals around 2^63 / 2^64 in radix 16, 10, 8 (last 2-3 characters symbolic, with "
+         "and without sign) and for short tokens (first two characters enumerated over digit x 21 character classes, further characters "
+         "symbolic; 1 character quick, 2-3 characters thorough), against a reference reader written from doc/syntax.rst.",
+         "NOT covered: the lexer and parser as wholes (any byte string), the capture_errors wrappers of the C API, run-time failures through "
+         "zw_result_next, the CLI (DESIGN 0.4/7). strtoull is a model (stubs/cxxrt.c).", '0.3'),
  'C16': ("coverage.cc as one inductive step from an arbitrary canonical pre-state of K runs: add/remove/is_covered/is_overlap/intersect/operator+,-,== "
          "against a membership oracle with a symbolic probe address, INV (ascending, disjoint, non-adjacent, non-empty) proved inductive; all values "
          "symbolic inside a 2^6 (quick) / 2^8 (thorough) window placed at 0, around 2^32, around 2^63 and just below 2^64-1; K<=2-3 quick, 3-4 thorough.",
@@ -60,7 +67,6 @@ NA = {
  'C07': "at_value's form dispatch calls into libdw at every step; only leaf kernels would be encodable and were not reached (DESIGN 7)",
  'C10': "op_tr_closure keeps a std::set<shared_ptr<stack>> ordered by value comparison: control depends on symbolic data, and CBMC's symbolic execution of merged C++ heap states did not terminate (DESIGN 2.5)",
  'C12': "needs two state buffers over one operator graph with a symbolic schedule, i.e. merged control over the C++ heap, which CBMC's symbolic execution does not get through (DESIGN 2.5)",
- 'C14': "lexer+parser as a whole are out of reach for the solver route (DESIGN 7); the numeric kernels and API wrappers were not reached in time",
  'C15': "needs lexer/parser and execution of both sides; tree::simplify over vector<tree> not reached (DESIGN 7)",
  'C17': "needs the libdw contract model (location lists, abbreviations); not reached (DESIGN 7)",
  'C18': "needs the libdwfl module/symbol model; the per-machine domain logic is covered under C09 only",
